@@ -1049,7 +1049,11 @@ def handle : List String → String
           let val := match firstFail envs src it with
             | Option.none => "holds"
             | some (i, why) => s!"fails:{i}:{why}"
-          s!"ok tie={boolStr tie} val={val} defined={definedCount envs src} reprint={boolStr reprint} specsame={boolStr specSame} model= {modelS} impl= {treeStr it}"
+          let specS := match spec with
+            | .ok _ => "ok"
+            | .err e => errStr e
+            | .panic => "panic"
+          s!"ok tie={boolStr tie} val={val} defined={definedCount envs src} reprint={boolStr reprint} specsame={boolStr specSame} spec={specS} model= {modelS} impl= {treeStr it}"
       | _, _, _ => "bad-op"
     | _ => "bad-op"
   | _ => "bad-op"
